@@ -248,12 +248,20 @@ func (fv *FV) opaqueCall(e *Env, x *ast.CallExpr, fn *types.Func, recv *Value, a
 		if recv != nil {
 			all = append([]Value{*recv}, args...)
 		}
-		for _, a := range all {
+		for ai, a := range all {
 			if fn != nil && (fv.eng.argsOnly(fn) || strings.Contains(fn.Name(), "Unmarshal")) && a.Type != nil {
 				if sl, ok := a.Type.Underlying().(*types.Slice); ok {
 					if b, ok := sl.Elem().Underlying().(*types.Basic); ok && b.Kind() == types.Uint8 {
 						continue // decoders read their input buffer, they do not write it
 					}
+				}
+			}
+			if fn != nil && fv.eng.argsOnly(fn) && a.Type != nil {
+				if _, isIf := a.Type.Underlying().(*types.Interface); isIf && (ai == 0 && recv != nil || isNamed(a.Type, "context", "Context")) {
+					// args: class: the callee's own (receiver-private) state and the
+					// context are opaque to the verified code: every read of them goes
+					// through further opaque calls, so no modelled location is written.
+					continue
 				}
 			}
 			fv.havocReachable(e, a)
@@ -800,6 +808,11 @@ func (fv *FV) applyContract(e *Env, x *ast.CallExpr, u *FuncUnit, recv *Value, a
 		t := fv.specTermA(e, cl, &specCtx{old: pre, bind: bind, results: results, preAlloc: pre.alloc})
 		fv.assume(e, t)
 	}
+	for _, cl := range c.Defines {
+		t := fv.specTermA(e, cl, &specCtx{old: pre, bind: bind, results: results, preAlloc: pre.alloc})
+		fv.assume(e, t)
+		fv.trustedUsed["definitional predicate (\"the deterministic check accepts\") introduced by "+u.Name()+": "+cl.Text] = true
+	}
 	switch len(results) {
 	case 0:
 		return Value{}
@@ -1159,6 +1172,18 @@ func (fv *FV) ghostBuiltin(e *Env, x *ast.CallExpr, fn *types.Func) Value {
 		} else if name == "gh_ufr" {
 			if k, srt := sortOf(rt); k == kScalar {
 				ret = srt
+			} else if k == kSlice && !isByteSlice(rt) {
+				sfx := "$" + sanitize(strings.Join(sorts, "_"))
+				mk := func(part, r string) Term {
+					n := fname + part + sfx
+					if len(args) == 0 {
+						return fv.s.declConst(n, r)
+					}
+					fv.s.declFun(n, sorts, r)
+					return app(r, n, args...)
+				}
+				ln := mk(".len", sInt)
+				return Value{K: kSlice, T: mk(".arr", sRef), Off: intLit(0), Len: ln, Cap: ln, Type: rt}
 			}
 		}
 		fname += "$" + sanitize(strings.Join(sorts, "_"))
@@ -1212,6 +1237,17 @@ func (fv *FV) ghostBuiltin(e *Env, x *ast.CallExpr, fn *types.Func) Value {
 			ats = append(ats, nil) // spec passes values, not pointers
 		}
 		return Value{K: kScalar, T: fv.keyID(e, kf.T, args, ats)}
+	case "gh_defined":
+		// defined(x): the local x has been assigned on the path reaching this return
+		if id, ok := ast.Unparen(x.Args[0]).(*ast.Ident); ok {
+			if o, ok := fv.info.Uses[id].(*types.Var); ok {
+				if _, has := fv.lookup(e, o); has {
+					return Value{K: kScalar, T: tTrue}
+				}
+				return Value{K: kScalar, T: tFalse}
+			}
+		}
+		fv.specErr("defined() takes a local variable")
 	case "gh_sameRef":
 		a, b := fv.expr(e, x.Args[0]), fv.expr(e, x.Args[1])
 		return Value{K: kScalar, T: eq(a.T, b.T)}
@@ -1492,6 +1528,12 @@ func (fv *FV) pureCall(e *Env, name string, rt types.Type, recv *Value, args []V
 		k, srt := sortOf(t)
 		switch k {
 		case kSlice:
+			if !isByteSlice(t) {
+				// a slice of non-bytes is identified by (array, length), both functions of the arguments
+				ln := mk(suffix+".len", sInt)
+				fv.assume(e, le(intLit(0), ln))
+				return Value{K: kSlice, T: mk(suffix+".arr", sRef), Off: intLit(0), Len: ln, Cap: ln, Type: t}
+			}
 			v := fv.freshValue(t, "r$"+name)
 			fv.assume(e, eq(fv.bytesID(e, v), mk(suffix, sInt)))
 			fv.assumeAllocated(e, v)
@@ -1512,4 +1554,16 @@ func (fv *FV) pureCall(e *Env, name string, rt types.Type, recv *Value, args []V
 		return Value{}
 	}
 	return one(rt, "")
+}
+
+func isByteSlice(t types.Type) bool {
+	if t == nil {
+		return false
+	}
+	sl, ok := t.Underlying().(*types.Slice)
+	if !ok {
+		return false
+	}
+	b, ok := sl.Elem().Underlying().(*types.Basic)
+	return ok && b.Kind() == types.Uint8
 }
